@@ -87,7 +87,7 @@ def run(rep, tier, seed):
     rep.rule = (
         "%d expressions forced through constructs that push temporary contexts (context literals, filters, for/some/every, invocations, unary tests) plus a quarter as many filters over lists whose context elements carry entries named `item`, like variables in use or like names of the caller's scope, each parsed and evaluated 3x in scopes of 1-4 layers with the "
         "scope rendered before/after; %d histories of 200-2000 steps over 8 prepared evaluators x 4 long-lived scopes; successful parses through all six entry points; %d generated DMN models (boxed contexts, "
-        "invocations, BKMs, services, tables) with every (invocable, input) pair called 3x interleaved in random order. Distinct = (text | history | model call); non-trivial = evaluation produced a non-null value." % (n_expr, n_hist, n_models)
+        "invocations, BKMs, services, tables) with every (invocable, input) pair called 3x interleaved in random order; decision tables recognised from drawings evaluated twice over a caller's scope that holds more than their inputs. Distinct = (text | history | model call); non-trivial = evaluation produced a non-null value." % (n_expr, n_hist, n_models)
     )
     rep.assumptions = ["the scope's textual rendering (Display of the stack of contexts) is a faithful witness of its contents", "values depending on the current date (times of day in named zones) are not generated"]
     rng = rng_for(seed, "c13")
@@ -208,6 +208,39 @@ def run(rep, tier, seed):
                 if r.get("v") is not None:
                     rep.seen(("model", case["xml"][:80], p))
     rep.extra["model_repeated_calls_compared"] = mrep
+    # ---- 5. decision-table evaluators over a caller's scope (recognised drawings) ----------
+    import gdraw
+
+    n_tables = 400 if tier == "quick" else 20000
+    dcases = []
+    for k in range(n_tables):
+        t = gdraw.random_table(rng, marker=gdraw.MARKERS[k % len(gdraw.MARKERS)])
+        t["tuples"] = gdraw.steer_inputs(t, rng, per_class=2)
+        ctxs = [gdraw.input_context(t, tup) for tup, _ in t["tuples"]]
+        try:
+            text = gdraw.draw(t, "row" if k % 2 == 0 else "col", rng)
+        except gdraw.NotDrawable:
+            continue
+        if isinstance(text, tuple):
+            text = text[0]
+        # the caller's scope holds more than the table's inputs
+        ctxs = [c + [["zz unrelated", {"n": "1"}], ["item", {"s": "i"}]] for c in ctxs]
+        dcases.append({"op": "dtext", "items": [{"text": text, "inputs": ctxs}]})
+    dres, _ = runner.run_cases("dbg", dcases, rep.workdir, label="tables")
+    tevals = 0
+    for case, res in zip(dcases, dres):
+        _ok(res)
+        if "rs" not in res:
+            rep.violation(crash_signature(res, "c13-table"), "decision table run died: %s" % json.dumps(res)[:300], {"variant": "dbg", "case": case})
+            continue
+        for rec in res["rs"][0].get("vs", []):
+            rep.count()
+            tevals += 1
+            if "scope_changed" in rec:
+                rep.violation("decision-table-evaluator-changed-the-scope", "evaluating a decision table changed the caller's scope: %s" % json.dumps(rec["scope_changed"])[:400], {"variant": "dbg", "case": case})
+            if "rep_diff" in rec:
+                rep.violation("decision-table-not-repeatable", "second evaluation of the same decision table evaluator differs: %s" % json.dumps(rec["rep_diff"])[:300], {"variant": "dbg", "case": case})
+    rep.extra["decision_table_evaluations_over_a_caller_scope"] = tevals
     if rep.evaluations < 10000 or reps < 1000 or mrep < 1000:
         rep.inconclusive_reason("too few observations (evaluations=%d, history repeats=%d, model repeats=%d)" % (rep.evaluations, reps, mrep))
 
